@@ -53,6 +53,26 @@ RULES = {
 }
 
 
+LABEL_RE = re.compile(r'//:\s*(\S+)(?:\s+(\S+))?\s*$')
+AFTER = {}      # label -> labels whose failure subsumes this one (`//: label props/after=L1+L2`)
+
+
+def parse_label(text):
+    """`//: label [props[/after=L1+L2]]` -> (label, props or None); a clause marked /after=... is a residual clause:
+    its failure is reported only when none of the listed clauses of the same run failed"""
+    m = LABEL_RE.search(text)
+    if not m:
+        return None, None
+    label, pr = m.group(1), m.group(2)
+    props = None
+    if pr:
+        if '/after=' in pr:
+            pr, a = pr.split('/after=', 1)
+            AFTER[label] = a.split('+')
+        props = pr.split(',') if pr else None
+    return label, props
+
+
 class Line:
     __slots__ = ('text', 'origin', 'fn')
 
@@ -216,6 +236,19 @@ class Unit:
         return s, f
 
     def _d_fn(self, rest, block, base, tline):
+        # call-site obligations (`callreq`) are checked on a second copy of the function (NAME__sites): a failed
+        # assertion is assumed afterwards, so on the same copy it would hide the failure of the contract proper
+        self._d_fn1(rest, block, base, tline, False)
+        name = [p.strip() for p in rest.split('|')][2]
+        if any(l.strip().startswith('//@callreq ') for _, l in block) and name not in self.quarantine:
+            n_soft, n_rw = len(self.soft_undecided), len(self.rewrites)
+            self._d_fn1(rest, block, base, tline, True)
+            seen = set(x['msg'] for x in self.soft_undecided[:n_soft])
+            self.soft_undecided[n_soft:] = [x for x in self.soft_undecided[n_soft:] if x['msg'] not in seen]
+            seen_rw = set(self.rewrites[:n_rw])
+            self.rewrites[n_rw:] = [x for x in self.rewrites[n_rw:] if x not in seen_rw]
+
+    def _d_fn1(self, rest, block, base, tline, sites):
         parts = [p.strip() for p in rest.split('|')]
         file, container, name = parts[0], parts[1], parts[2]
         props = self.props
@@ -231,6 +264,7 @@ class Unit:
         loops = {}
         proofs = []
         closures = {}
+        callreqs = []
         forloops = {}
         forusing = {}
         foriter = {}
@@ -257,11 +291,15 @@ class Unit:
                 proofs.append((h[6:].strip(), body))
             elif h.startswith('closure '):
                 closures[int(h[8:])] = body
+            elif h.startswith('callreq '):
+                if sites:
+                    callreqs.append(h[8:].strip())
             else:
                 raise ExtractError('%s:%d: unknown section %s' % (base, tline, h))
         qual = (container + '::' if container not in ('-', '') else '') + name
         finfo = dict(name=name, qual=qual, file=file, line=s.line_of(f['kw']), props=props, clauses=[])
-        self.functions.append(finfo)
+        if not sites:
+            self.functions.append(finfo)
         fnkey = name
 
         # ---- signature
@@ -366,6 +404,38 @@ class Unit:
                     continue
                 off = body.rfind('\n', 0, hits[want].start()) + 1
                 ins.append((off, 'proof', lines))
+        # call-site obligations: `callreq CALLEE @ FILE | PARAM | TEMPLATE //: label props` asserts TEMPLATE (with `$`
+        # standing for the argument passed for the callee's parameter PARAM) in front of every statement of this
+        # function that calls CALLEE.  No call, no obligation.
+        mbody = s.masked[f['open']:f['close'] + 1]
+        for cr in callreqs:
+            cm = re.match(r'(\w+)\s*@\s*(\S+)\s*\|\s*(\w+)\s*\|\s*(.*?)\s*(//:.*)$', cr)
+            if not cm:
+                raise ExtractError('%s:%d: bad callreq %s' % (base, tline, cr))
+            cname, cfile, param, templ, lab = cm.groups()
+            cs, cf = self._locate_fn(cfile, '-', cname)
+            pnames = self._param_names(cs, cf)
+            if param not in pnames:
+                self.soft_undecided.append(dict(msg='%s: %s has no parameter %s any more' % (cfile, cname, param), props=list(props)))
+                continue
+            n_sites = 0
+            for mm in re.finditer(r'(?<![\w.:])%s\s*(?:::<[^>]*>)?\s*\(' % cname, mbody):
+                o = mm.end() - 1
+                e = match_close(mbody, o)
+                args = self._split_top(body[o + 1:e], mbody[o + 1:e])
+                if len(args) != len(pnames):
+                    self.soft_undecided.append(dict(msg='%s: call to %s in %s has %d arguments, its signature %d' % (where, cname, name, len(args), len(pnames)), props=list(props)))
+                    continue
+                st = self._stmt_start(mbody, mm.start())
+                if st is None:
+                    self.soft_undecided.append(dict(msg='%s: call to %s in %s is not a statement of its own (match arm / nested expression)' % (where, cname, name), props=list(props)))
+                    continue
+                arg = args[pnames.index(param)]
+                arg = re.sub(r'\s+', ' ', re.sub(r'//[^\n]*|/\*.*?\*/', ' ', arg, flags=re.S)).strip()     # comments between arguments
+                arg = self.apply_rules(arg, where)
+                ins.append((st, 'proof', [(tline, 'proof { assert(%s); }   %s' % (templ.replace('$', '(' + arg + ')'), lab))]))
+                n_sites += 1
+            self.rewrites.append(('callreq %s.%s: %d call site(s) in %s' % (cname, param, n_sites, name), where, n_sites))
         sig_pending = sig
         # body with insertions: walk through body text
         events = sorted([(o, 0, k, l) for o, k, l in ins] + [(a, 1, b, t) for a, b, t in repl], key=lambda e: (e[0], e[1]))
@@ -399,6 +469,8 @@ class Unit:
         SEP = '/*@@SIGEND@@*/'
         joint = self.apply_subs(sig_pending + SEP + rendered, subs, where)
         sig_new, rendered = joint.split(SEP)
+        if sites:
+            sig_new = re.sub(r'\bfn\s+%s\b' % re.escape(name), 'fn %s__sites' % name, sig_new, count=1)
         if name in self.quarantine:
             # the body is outside what the verifier accepts on this tree: keep signature + contract (callers still
             # verify against it), drop the body; the function itself is reported undecided
@@ -415,12 +487,11 @@ class Unit:
             self.lines.append(Line('#[verifier::exec_allows_no_decreases_clause]', ('tmpl', base, tline), fnkey))
         self.emit_repo(s, f['start'], f['open'], text=sig_new.rstrip('\n'), fn=fnkey)
         for ln, l in spec:
-            lab = re.search(r'//:\s*(\S+)(?:\s+(\S+))?\s*$', l)
-            org = ('spec', base, ln, name, lab.group(1) if lab else None,
-                   lab.group(2).split(',') if lab and lab.group(2) else props)
+            lab, lprops = parse_label(l)
+            org = ('spec', base, ln, name, lab, lprops if lprops else props)
             self.lines.append(Line(l, org, fnkey))
             if lab:
-                finfo['clauses'].append(lab.group(1))
+                finfo['clauses'].append(lab)
         # emit line by line; repo line numbers are approximate after insertions of text on
         # the same line, exact otherwise
         ln = s.line_of(f['open'])
@@ -440,9 +511,9 @@ class Unit:
                 self.lines.append(Line(buf, ('repo', s.path, ln), fnkey))
                 buf = ''
                 for tl_, l in lines:
-                    lab = re.search(r'//:\s*(\S+)(?:\s+(\S+))?\s*$', l)
-                    self.lines.append(Line(l, ('spec', base, tl_, name, (lab.group(1) if lab else kind),
-                                               lab.group(2).split(',') if lab and lab.group(2) else props), fnkey))
+                    lab, lprops = parse_label(l)
+                    self.lines.append(Line(l, ('spec', base, tl_, name, (lab if lab else kind),
+                                               lprops if lprops else props), fnkey))
             else:
                 # replacement text may span several lines; they all map to the current repo line
                 parts_ = payload.split('\n')
@@ -601,6 +672,31 @@ class Unit:
         self.emit_repo(s, start, end, text=seg, fn='slice')
 
     # ---------------------------------------------------------------------
+    @staticmethod
+    def _stmt_start(masked, pos):
+        """offset where the statement containing masked[pos] begins (None if it is a match-arm expression)"""
+        d = 0
+        i = pos - 1
+        while i >= 0:
+            c = masked[i]
+            if c in ')]}':
+                if c == '}' and d == 0:
+                    return i + 1
+                d += 1
+            elif c in '([{':
+                if d == 0:
+                    if c == '{':
+                        return i + 1
+                    # inside the argument list / index of an enclosing expression: keep going outwards
+                else:
+                    d -= 1
+            elif c == ';' and d == 0:
+                return i + 1
+            elif c == '>' and d == 0 and i > 0 and masked[i - 1] == '=':
+                return None
+            i -= 1
+        return None
+
     @staticmethod
     def _split_top(text, masked):
         """split at top-level commas (brackets and angle brackets respected)"""
